@@ -79,11 +79,26 @@ def streams(rng, tier):
         out.append((5, zlib.compress(d, 1)[2:]))
         z = gz(d); out.append((6, z[10:]))
         out.append((2, raw(d, 6))); out.append((4, raw(d, 9)))
+    # gzip members whose header carries several optional fields (FEXTRA / FNAME / FCOMMENT / FHCRC in every combination of
+    # two or more): the header is then split across calls at every position by the in-split family
+    from props import c19
+    d = datas[0]
+    for mask in (8, 6, 10, 12, 3, 5, 9, 7, 14, 15, 13, 11):
+        f = c19.fields(rng, mask | 32); f["extra"] = f["extra"][:20]; f["comment"] = f["comment"][:12]; f["name"] = f["name"][:9]
+        import struct
+        out.append((1, c19.gz_bytes(f) + raw(d, 6) + struct.pack("<II", zlib.crc32(d) & 0xffffffff, len(d))))
     return out
 
 def gen_inflate(tier, rng):
     scns = []
     k = 0
+    # zlib streams that announce a preset dictionary (FDICT): the caller supplies it when ISAL_NEED_DICT is returned
+    dct = igz.corpus(rng, "text", 700)
+    data = bytes(dct[200:500] + igz.corpus(rng, "text", 300) + dct[-100:])
+    c = zlib.compressobj(6, zlib.DEFLATED, 15, 9, 0, bytes(dct)); st = c.compress(data) + c.flush()
+    for kk in list(range(1, 12)) + [len(st) // 2, len(st) - 3]:
+        scns.append(igz.scenario(len(scns), "inflate", list(st), wrap=3, dictmode=2, dct=dct, calls=[[kk, 1 << 16, 0, 0], [len(st) - kk, 1 << 16, 0, 0]], mem=k % 3, meta={"family": "fdict-split"})); k += 1
+    scns.append(igz.scenario(len(scns), "inflate", list(st), wrap=3, dictmode=2, dct=dct, tail_ai=1, tail_ao=1 << 16, cap=100000, meta={"family": "fdict-1byte"}))
     for wrap, st in streams(rng, tier):
         n = len(st)
         # one-shot reference run and the streaming schedules
